@@ -1116,6 +1116,40 @@ def check_C03(ctx):
 
 
 # ----------------------------------------------------------------------------
+def rand_post_module(ctx, salt=0):
+    """Randomised VALUES for MapPost.tla (the structure - times, beat lengths, velocities - stays on the exactness lattice):
+    sample banks / volumes / custom indices of every timing line and four object sample shapes drawn with the seed."""
+    import random
+    rnd = random.Random(ctx.seed * 2909 + 11 + salt * 49979687)
+    skel = [[(0, "TRUE", 400)],
+            [(0, "TRUE", 400), (2000, "FALSE", -50), (2810, "FALSE", -50)],
+            [(2000, "TRUE", 800), (2410, "FALSE", -200), (2010, "FALSE", -200)],
+            [(0, "TRUE", 200), (2010, "TRUE", 400), (4010, "FALSE", -100)],
+            [],
+            [(0, "TRUE", 400), (2000, "FALSE", -400), (2410, "FALSE", -25), (3200, "FALSE", -100)],
+            [(0, "TRUE", 400), (2000, "FALSE", -2000), (2010, "FALSE", -5)]]
+    seqs = []
+    for sk in skel:
+        seqs.append("<<%s>>" % ", ".join("TL(%d, %s, %d, %d, %d, %d)" % (tau, unin, bl, rnd.choice([0, 1, 2, 3, rnd.randint(-2, 7)]),
+                                                                     rnd.choice([100, 60, 0, rnd.randint(-50, 250)]), rnd.choice([0, 0, 1, 2, rnd.randint(-3, 300)]))
+                                           for (tau, unin, bl) in sk))
+    smps = set()
+    while len(smps) < 4:
+        smps.add("Smp(%d, %d, %d, %d, %d, %s)" % (rnd.choice([0, 2, rnd.randint(0, 15), rnd.randint(0, 255)]), rnd.randint(0, 3), rnd.randint(0, 3),
+                                                  rnd.choice([0, 0, rnd.randint(1, 250), -rnd.randint(1, 50)]), rnd.choice([0, 0, 1, 2, rnd.randint(-5, 40)]),
+                                                  rnd.choice(["FALSE", "FALSE", "TRUE"])))
+    text = ("------------------------------ MODULE RandPost ------------------------------\n"
+            "(* generated by bin/plans.py (rand_post_module) from VERIF_SEED = %d - do not edit.  Randomised sample VALUES for\n"
+            "   MapPost: the model is the oracle, the values it is asked about change with the seed. *)\n"
+            "EXTENDS MapPost\n\nRandTimingSeq == <<\n    %s >>\n\nRandObjSamples == { %s }\n"
+            "=============================================================================\n") % (ctx.seed, ",\n    ".join(seqs), ", ".join(sorted(smps)))
+    path = os.path.join(SPEC, "RandPost.tla")
+    old = open(path).read() if os.path.exists(path) else None
+    if old != text:
+        with open(path, "w") as fh:
+            fh.write(text)
+
+
 def check_C15(ctx):
     thorough = ctx.tier == "thorough"
     for m in ("TimingLines", "MapPost"):
@@ -1139,6 +1173,27 @@ def check_C15(ctx):
         os.remove(body)
         summ = harness(ctx, ["mappost", "replay"], cases_file=cases, name="mappost-replay-" + profile, timeout=3600)
         report_mismatches(ctx, summ, "map-level processing differs from the MapPost specification")
+        os.remove(cases)
+    # randomised sample values (banks, volumes, custom indices, hit-sound bytes, file samples) on the same structure
+    for salt in ([3, 2, 1, 0] if thorough else [0]):
+        rand_post_module(ctx, salt)
+        sany(ctx, "RandPost")
+        name = "MC_RandPost"
+        cases = os.path.join(ctx.work, name + ".ndjson")
+        body = cases + ".body"
+        cfg = dict(spec="PSpec", invariants=["SortedStable", "ComboAfterBreak"],
+                   constants=dict(Alpha="<-AlphaShape", Gens="<-GensTwo", MaxLines="0", MinLines="0", Emit="FALSE", MaxObjs="2",
+                                  TimesSet='"small"' if thorough else '"tiny"', EmitPost="TRUE", Profile='"wide"', TimingSeq="<-RandTimingSeq",
+                                  ObjSamples="<-RandObjSamples"))
+        r = tlc(ctx, "RandPost", name, cfg, workers=14, timeout=3000, cases_file=body)
+        with open(cases, "w") as f:
+            f.write(json.dumps({"alpha": r["alpha"]}) + "\n")
+            with open(body) as b:
+                for ln in b:
+                    f.write(ln)
+        os.remove(body)
+        summ = harness(ctx, ["mappost", "replay"], cases_file=cases, name="mappost-replay-rand", timeout=3600)
+        report_mismatches(ctx, summ, "map-level processing differs from the MapPost specification (randomised sample values %d)" % salt)
         os.remove(cases)
     # the composition with the other sections: sections in any order and repeated (SectionFlow.tla)
     f = flow_cases(ctx, 5 if thorough else 4)
